@@ -10,6 +10,9 @@
       val case :  "val=<class> ing=<ingest class> has=<0|1> rows=<ops>+<topics>/<ops>+<topics>"
                   optionally followed by " ing2=<ingest class> rows2=<ops>+<topics>" (same
                   operation ingested a second time)
+      resub case: "first=<ingest class> rows=<o>+<t>/<o>+<t> | val=<class> ing=<ingest class> has=<0|1>
+                   hasorig=<0|1> rows=<o>+<t> samehash=<0|1> stored=<0|1>" (valid original ingested,
+                  then a mutated copy ingested on the same store)
       byte case:  "base=<ingest class>" then either " | NODEC" or
                   " | DEC <header> body=<bytes|-> | val=.. ing=.. has=.. rows=../.. same=<0|1>"
     <class> = OK or the [OperationError] variant name; <ingest class> = NEW | DUP | variant name. *)
@@ -76,6 +79,24 @@ Definition model_val (prune twice : bool) (h : header) (body : option bytes) : s
         " ing2=" ++ show_ingest r2 ++ " rows2=" ++ show_rows s2
       else "").
 
+(** re-submission: two [ingest] steps on one store; the second operation is the mutated copy.
+    [stored]: the store still holds the original under its id with the original body. *)
+Definition model_resub (h0 : header) (body0 : option bytes) (h : header) (body : option bytes) : string :=
+  let op0 := nop h0 body0 in
+  let op := nop h body in
+  let '(s1, r1) := ingest0 true store0 op0 in
+  let '(s2, r2) := ingest0 true s1 op in
+  "first=" ++ show_ingest r1 ++ " rows=" ++ show_rows store0 ++ "/" ++ show_rows s1
+  ++ " | val=" ++ show_class (v_operation op) ++ " ing=" ++ show_ingest r2
+  ++ " has=" ++ show_bool (lhas s2 (op_hash op))
+  ++ " hasorig=" ++ show_bool (lhas s2 (op_hash op0))
+  ++ " rows=" ++ show_rows s2
+  ++ " samehash=" ++ show_bool (bytes_eqb (op_hash op) (op_hash op0))
+  ++ " stored=" ++ show_bool (match find (fun o => bytes_eqb (op_hash o) (op_hash op0)) s2 with
+                              | Some o => opt_bytes_eq (op_body o) body0
+                              | None => false
+                              end).
+
 (** byte cases: the untampered operation is accepted *)
 Definition model_base (h : header) (body : option bytes) : string :=
   "base=" ++ show_ingest (snd (ingest0 true store0 (nop h body))).
@@ -134,6 +155,31 @@ Definition check_val (prune : bool) (h : header) (body : option bytes)
          && (if accepted ing then match c2 with IDup => true | _ => false end
              else match c2 with IRej => true | _ => false end)
      end.
+
+(** resub case. The valid original (h0, body0) is stored first ([first_new], one row more), then
+    (h, body) is submitted on the same store.
+    - validation accepts exactly the good operations;
+    - a submission that is not good (in particular: the original header with an attached body that
+      does not match its claimed hash / size, whatever is already stored under that id) is
+      REJECTED; a good one with the original header (identical, or body left out) is a duplicate;
+    - unless something new was inserted the rows are unchanged; in every case the original is
+      still stored under its id with its original body. *)
+Definition check_resub (h0 : header) (body0 : option bytes) (h : header) (body : option bytes)
+           (first_new valok : bool) (ing : iclass) (has hasorig : bool)
+           (ob tb om tm oa ta : N) (samehash stored : bool) : bool :=
+  let h0 := norm h0 in
+  let h := norm h in
+  let g := good_b h body in
+  let same_header := bytes_eqb (ideal_header_hash h) (ideal_header_hash h0) in
+  first_new && good_b h0 body0 && N.eqb om (ob + 1) && N.eqb tm (tb + 1)
+  && Bool.eqb samehash same_header
+  && Bool.eqb valok g
+  && (if g then (if same_header then match ing with IDup => true | _ => false end
+                 else match ing with INew => true | _ => false end)
+      else match ing with IRej => true | _ => false end)
+  && (if accepted ing then N.eqb oa (om + 1) && has
+      else N.eqb oa om && N.eqb ta tm && Bool.eqb has same_header)
+  && hasorig && stored.
 
 (** byte case. [h0]/[b0]: the valid operation whose bytes were tampered with; [dec]: what the
     implementation decoded from the tampered bytes ([None] = the bytes did not decode, nothing
